@@ -89,6 +89,18 @@ Proof.
   assert (zz + 2 * a * zd + a * a * dd <= D * D) by (apply Rmult_le_reg_l with t; assumption). lra.
 Qed.
 
+(* project_to_boundary_with_coefs on vectors with consistent coefficients: the result has norm Delta *)
+Lemma project_on_boundary n (z d : rvec) D : len n z -> len n d -> z ⋅ z <= D * D -> 0 < d ⋅ d ->
+  let out := @project_coefs R NumR z d D (z ⋅ z) (z ⋅ d) (d ⋅ d) in
+  len n out /\ out ⋅ out = D * D /\ exists t, 0 <= t /\ out = raxpy z t d.
+Proof.
+  intros Hz Hd Hzz Hdd. cbv zeta. unfold project_coefs. fold (tauR D (z ⋅ z) (z ⋅ d) (d ⋅ d)).
+  destruct (tau_spec D _ (z ⋅ d) _ Hzz Hdd) as (_ & Ht & Hq).
+  split; [auto with vlen|]. split.
+  - rewrite (rdot_raxpy_self n) by assumption. exact Hq.
+  - eexists; split; [exact Ht|reflexivity].
+Qed.
+
 (* ------------------------------------------------------------------ the CG loop *)
 Lemma qmodel_R Hf g z : @qmodel R NumR Hf g z = g ⋅ z + / 2 * (z ⋅ Hf z).
 Proof. unfold qmodel. unfold_num. q2r. lra. Qed.
@@ -376,3 +388,91 @@ Section CGproofs.
     Qed.
   End Start.
 End CGproofs.
+
+(* ------------------------------------------------------------------ the public entry point *)
+Lemma radd_rzero_l (x y : rvec) : length x = length y -> radd (rzero x) y = y.
+Proof.
+  revert y; induction x as [|a x IH]; intros [|b y] E; try discriminate; [reflexivity|].
+  cbn. unfold_num. q2r. f_equal; [ring|]. apply IH. simpl in E; congruence.
+Qed.
+
+Section CGmain.
+  Variable n : nat.
+  Variables Hf Pf : rvec -> rvec.
+  Variable pcip : bool.
+  Variables D cg_tol cg_ratio : R.
+  Variables x g : rvec.
+  Hypothesis Hlen : forall v, len n v -> len n (Hf v).
+  Hypothesis Plen : forall v, len n v -> len n (Pf v).
+  Hypothesis Hlin : forall a k b, len n a -> len n b -> Hf (raxpy a k b) = raxpy (Hf a) k (Hf b).
+  Hypothesis Hsym : forall a b, len n a -> len n b -> a ⋅ Hf b = Hf a ⋅ b.
+  Hypothesis Ppos : forall v, len n v -> 0 < v ⋅ v -> 0 < v ⋅ Pf v.
+  Hypothesis tol_nz : cg_tol <> 0.
+  Hypothesis xlen : len n x.
+  Hypothesis glen : len n g.
+
+  Let tol2 := @cg_tol_squared R NumR cg_tol cg_ratio g.
+  Let d0 := rneg (Pf g).
+  Let dd0 := if pcip then g ⋅ Pf g else d0 ⋅ d0.
+
+  Lemma tol2_pos : 0 < tol2.
+  Proof.
+    unfold tol2, cg_tol_squared, nmax. unfold_num. unfold Rltb.
+    assert (0 < cg_tol * cg_tol) by nra.
+    destruct (Rlt_dec (cg_tol * cg_tol) (cg_ratio * cg_ratio * (g ⋅ g))); lra.
+  Qed.
+
+  Theorem cg_solve_correct f :
+    let res := @solve_trust_region_minimization R NumR Hf Pf pcip D cg_tol cg_ratio (S f) x g in
+    len n (cg_z res) /\
+    @qmodel R NumR Hf g (cg_z res) <= 0 /\
+    (cg_iters res <> 0%nat -> forall t, 0 <= t -> t * t * dd0 <= D * D ->
+       @qmodel R NumR Hf g (cg_z res) <= @qmodel R NumR Hf g (rscale t d0)) /\
+    (cg_tag res = Interior -> radd g (Hf (cg_z res)) ⋅ radd g (Hf (cg_z res)) < tol2) /\
+    (pcip = false -> cg_z res ⋅ cg_z res <= D * D /\
+                     (is_on_boundary (cg_tag res) = true -> cg_z res ⋅ cg_z res = D * D)).
+  Proof.
+    intros res. subst res. unfold solve_trust_region_minimization.
+    fold tol2. unfold_num. q2r. unfold Rltb.
+    pose proof tol2_pos as Htol.
+    destruct (Rlt_dec (g ⋅ g) tol2) as [Hsmall|Hbig]; cbn [cg_z cg_tag cg_iters].
+    - assert (Hz0 : len n (rzero x)) by auto with vlen.
+      split; [assumption|]. split.
+      { rewrite qmodel_R, rdot_rzero_r, rdot_rzero_l. lra. }
+      split; [intros E; exfalso; apply E; reflexivity|]. split.
+      { intros _.
+        pose proof (resid_of_res n Hf g Hlen glen (rzero x) g Hz0 glen) as E. unfold resid in E. rewrite E; [assumption|].
+        intros w Hw. rewrite (Hf_zero n Hf Hlen Hlin x w xlen). ring. }
+      intros _. rewrite rdot_rzero_l. split; [nra|cbn; discriminate].
+    - pose proof (cg_from_start n Hf Pf pcip D tol2 g Hlen Plen Hlin Hsym Ppos Htol glen x xlen Hbig f) as (P & C).
+      cbv zeta in P, C. fold d0 in P, C. fold dd0 in P, C.
+      destruct P as (P1 & P2 & P3 & P4).
+      unfold loopR in *.
+      split; [exact P1|]. split.
+      { rewrite qmodel_R. unfold mq in P2. rewrite (mq_z0 Hf g x) in P2 || idtac.
+        eapply Rle_trans; [exact P2|]. rewrite rdot_rzero_r, rdot_rzero_l. lra. }
+      split.
+      { intros _ t Ht Htr. specialize (C t Ht Htr). unfold mq in C. rewrite !qmodel_R.
+        unfold vaxpy in C. rewrite radd_rzero_l in C; [exact C|].
+        unfold vzero_like, vscale, d0, vneg. rewrite !map_length. rewrite xlen. symmetry. apply Plen. exact glen. }
+      split; [exact P3|exact P4].
+  Qed.
+End CGmain.
+
+(* the hypotheses on the oracles are satisfiable: Hessian 2*I, identity preconditioner, any dimension *)
+Lemma rscale_raxpy c (a : rvec) k (b : rvec) : rscale c (raxpy a k b) = raxpy (rscale c a) k (rscale c b).
+Proof.
+  revert b; induction a as [|x a IH]; intros [|y b]; try reflexivity.
+  cbn. unfold_num. f_equal; [ring|apply IH].
+Qed.
+Lemma cg_hypotheses_satisfiable n :
+  let Hf := rscale 2 in let Pf := fun v : rvec => v in
+  (forall v, len n v -> len n (Hf v)) /\ (forall v, len n v -> len n (Pf v)) /\
+  (forall a k b, len n a -> len n b -> Hf (raxpy a k b) = raxpy (Hf a) k (Hf b)) /\
+  (forall a b, len n a -> len n b -> a ⋅ Hf b = Hf a ⋅ b) /\
+  (forall v, len n v -> 0 < v ⋅ v -> 0 < v ⋅ Pf v) /\ len 2 [1; 0].
+Proof.
+  cbv zeta. repeat split; intros; auto with vlen.
+  - apply rscale_raxpy.
+  - rewrite rdot_rscale_r, rdot_rscale_l. reflexivity.
+Qed.
